@@ -328,7 +328,8 @@ wav_read_header	(SF_PRIVATE *psf, int *blockalign, int *framesperblock)
 	psf->rwf_endian = (marker == RIFF_MARKER) ? SF_ENDIAN_LITTLE : SF_ENDIAN_BIG ;
 
 	while (! done)
-	{	size_t jump = chunk_size & 1 ;
+	{	sf_count_t chunk_start = psf_binheader_tell (psf) ;
+		size_t jump = chunk_size & 1 ;
 
 		marker = chunk_size = 0 ;
 		psf_binheader_readf (psf, "jm4", jump, &marker, &chunk_size) ;
@@ -654,6 +655,12 @@ wav_read_header	(SF_PRIVATE *psf, int *blockalign, int *framesperblock)
 
 		if (! psf->sf.seekable && (parsestage & HAVE_data))
 			break ;
+
+		/* End of input, or a chunk size that takes the parser back to where it was. */
+		if (psf_binheader_tell (psf) <= chunk_start)
+		{	psf_log_printf (psf, "*** Chunk at position %D does not advance the parser. Exiting parser.\n", chunk_start) ;
+			break ;
+			} ;
 
 		if (psf_ftell (psf) >= psf->filelength - SIGNED_SIZEOF (chunk_size))
 		{	psf_log_printf (psf, "End\n") ;
